@@ -43,7 +43,10 @@ char *g_cur = nullptr;
 size_t g_cur_used = 0;
 struct FStats { long runs = 0, parsed = 0, ok = 0, failed = 0, nontrivial = 0, evals = 0; std::map<std::string, long> labels; std::set<uint64_t> distinct_nt; std::vector<std::string> samples; } g_st;
 
-void learn(const Case &c) {
+std::set<std::string> g_drop;          // operations left to the generator modes (too slow or too stateful to run in-process)
+void learn(const Case &c0) {
+    Case c;
+    for (const Op &op : c0) if (!g_drop.count(op.name)) c.push_back(op);
     if (c.empty()) return;
     g_heads.insert(c[0].name);
     g_max_ops = std::max(g_max_ops, c.size());
@@ -131,6 +134,7 @@ extern "C" int LLVMFuzzerInitialize(int *, char ***) {
         std::istringstream qs(q);
         while (std::getline(qs, item, ',')) if (!item.empty()) g_quar.insert(item);
     }
+    { std::string dr = env("VT_FUZZ_DROP", ""), item; std::istringstream ds(dr); while (std::getline(ds, item, ',')) if (!item.empty()) g_drop.insert(item); }
     std::string seeds = env("VT_FUZZ_SHAPE_DIR", "");
     if (DIR *d = opendir(seeds.c_str())) {
         while (dirent *e = readdir(d)) {
